@@ -14,4 +14,7 @@ for q, tq in grid_q:
 OBLIGATIONS.append(Ob('C04.params', 'C10/attr.cc', 'h_params', tier='quick', unwind=6, defines={'NCOMP': 2}, max_alloc=64, uf_float=True,
     bound='2 points x 2 components, every float32 bit pattern, q symbolic 1..30; float subtraction abstracted as an uninterpreted function (the reference uses the same subtraction)',
     covers='AttributeQuantizationTransform::ComputeParameters (NaN/Inf rejection, per-component minimum, range = largest extent, degenerate range 1.0)'))
+OBLIGATIONS.append(Ob('C04.inverse_is_dequant', 'C10/attr.cc', 'h_inverse_is_dequant', tier='quick', unwind=6, defines={'NCOMP': 2}, max_alloc=64, uf_float=True,
+    bound='1 value x 2 components of ANY int32, q symbolic 1..30, origin/range any float bit pattern (UF floats; counterexamples refined with exact semantics)',
+    covers='AttributeQuantizationTransform::InverseTransformAttribute == Dequantizer::Init/DequantizeFloat + origin (ties the attribute layer to the scalar kernel of C04.scalar_*)'))
 META = {}
